@@ -5,6 +5,7 @@ import (
 	"verif.local/harness/c13"
 	"verif.local/harness/c14"
 	"verif.local/harness/c18"
+	"verif.local/harness/c20"
 	"verif.local/harness/simkit"
 )
 
@@ -15,6 +16,7 @@ var registry = map[string]func() simkit.Property{
 	"C13": func() simkit.Property { return c13.New() },
 	"C14": func() simkit.Property { return c14.New() },
 	"C18": func() simkit.Property { return c18.New() },
+	"C20": func() simkit.Property { return c20.New() },
 }
 
 var instances = map[string]simkit.Property{}
